@@ -59,6 +59,12 @@ impl Chunk {
     &self.instructions
   }
 
+  /// All constants of this chunk
+  #[cfg(feature = "verif")]
+  pub fn verif_constants(&self) -> &[Value] {
+    &self.constants
+  }
+
   /// Retrieve a constant in the constants table at
   /// the provided offset
   #[inline]
